@@ -69,6 +69,19 @@ def new_seq(lm, text, protein):
 def collect():
     return gc.collect()
 
+@guard
+def do_scan(lm, values, seq, threshold, block_size):
+    pssm = lm.ScoringMatrix(values)
+    striped = lm.stripe(seq)
+    hits = []
+    overflow = False
+    for h in lm.scan(pssm, striped, threshold=threshold, block_size=block_size):
+        hits.append([h.position, repr(h.score)])
+        if len(hits) > len(seq) + 2:
+            overflow = True
+            break
+    return {"hits": hits, "overflow": overflow}
+
 import errno
 
 class SimFile:
